@@ -171,6 +171,7 @@ func runC14(e *Engine, res *EpisodeResult) {
 	}
 	for _, k := range ks {
 		e.SoloMarkers(k, 0)
+		e.SoloErrKind(k + int(p.Seed%5))
 		err, pn := c14Run(e, c)
 		res.Evals++
 		e.fired("hostCallFailed")
